@@ -2325,6 +2325,10 @@ def splitMultipleSubst(oldSubTable, newSubTable, overflowRecord):
         # doesn't overflow.
         newLen = overflowRecord.itemIndex - 1
 
+    if newLen <= 0 or newLen >= oldLen:
+        # Nothing would be left in one of the halves: cannot split any further.
+        return False
+
     newSubTable.mapping = {}
     for i in range(newLen, oldLen):
         item = oldMapping[i]
@@ -2354,6 +2358,10 @@ def splitAlternateSubst(oldSubTable, newSubTable, overflowRecord):
         # to the Coverage table doesn't overflow.
         newLen = overflowRecord.itemIndex - 1
 
+    if newLen <= 0 or newLen >= oldLen:
+        # Nothing would be left in one of the halves: cannot split any further.
+        return False
+
     newSubTable.alternates = {}
     for i in range(newLen, oldLen):
         item = oldAlts[i]
@@ -2379,6 +2387,10 @@ def splitLigatureSubst(oldSubTable, newSubTable, overflowRecord):
         # from the overflowed AlternateSet index to make sure the offset
         # to the Coverage table doesn't overflow.
         newLen = overflowRecord.itemIndex - 1
+
+    if newLen <= 0 or newLen >= oldLen:
+        # Nothing would be left in one of the halves: cannot split any further.
+        return False
 
     newSubTable.ligatures = {}
     for i in range(newLen, oldLen):
